@@ -1,6 +1,7 @@
 """Property table: which specification modules, scenario sources and configurations decide each property."""
 import json
 import os
+import shutil
 import time
 
 import engine_check as ec
@@ -186,8 +187,10 @@ def idx_scenarios(prop_id, tier, seed, sample, nprobes):
     probes = stats.get("probes")
     if probes is None:
         # the probe list is printed once by the model (ASSUME PrintT(<<"PROBES", ...>>)): regenerate it with a depth-0 run
-        rc, out = vc.tlc("MC_Idx", "MC_Idx_probes.cfg", os.path.join(vc.RUN, "gen_probes_%d" % os.getpid()), workers=1, timeout=300)
+        pwd = os.path.join(vc.RUN, "gen_probes_%d" % os.getpid())
+        rc, out = vc.tlc("MC_Idx", "MC_Idx_probes.cfg", pwd, workers=1, timeout=300)
         probes = vc.extract_tagged(out, "PROBES")[-1]
+        shutil.rmtree(pwd, ignore_errors=True)
     rnd = random.Random(seed)
     stats["exhaustive"] = True
     if nprobes:
